@@ -114,25 +114,49 @@ def surplus():
 # regex AST:  ('cs', charset) ('mark',) ('eps',) ('none',) ('cat', [..]) ('alt', [..]) ('star', r)
 #             ('loop', r, lo, hi|None) ('and', [..]) ('not', r) ('allm',)  -- (Sigma + marker)*
 
-EPS, NONE, MARK, ALLM = ('eps',), ('none',), ('mark',), ('allm',)
+class N(tuple):
+    """hash-consed regex node: structural equality is identity, hashing is O(1) (the ASTs are DAGs with heavy sharing)"""
 
-_keys = {}
+    def __hash__(self):
+        return self.uid
+
+    def __eq__(self, o):
+        return self is o
+
+    def __ne__(self, o):
+        return self is not o
+
+    def __reduce__(self):
+        return (mk, tuple(self))
+
+
+_intern = {}
+
+
+def mk(*parts):
+    key = tuple((("N", p.uid) if isinstance(p, N) else (("T", tuple(x.uid for x in p)) if (isinstance(p, tuple) and p and isinstance(p[0], N)) else p))
+                for p in parts)
+    n = _intern.get(key)
+    if n is None:
+        n = N(parts)
+        n.uid = len(_intern) + 1
+        _intern[key] = n
+    return n
+
+
+EPS, NONE, MARK, ALLM = mk('eps'), mk('none'), mk('mark'), mk('allm')
 
 
 def _key(r):
-    k = _keys.get(r)
-    if k is None:
-        k = _keys[r] = repr(r)
-    return k
-
+    return r.uid
 
 
 def cat(*rs):
     out = []
     for r in rs:
-        if r == NONE:
+        if r is NONE:
             return NONE
-        if r == EPS:
+        if r is EPS:
             continue
         if r[0] == 'cat':
             out.extend(r[1])
@@ -140,53 +164,59 @@ def cat(*rs):
             out.append(r)
     if not out:
         return EPS
-    return out[0] if len(out) == 1 else ('cat', tuple(out))
+    return out[0] if len(out) == 1 else mk('cat', tuple(out))
 
 
 def alt(*rs):
     out = []
+    seen = set()
     for r in rs:
-        if r == NONE:
+        if r is NONE:
             continue
-        if r[0] == 'alt':
-            for x in r[1]:
-                if x not in out:
-                    out.append(x)
-        elif r not in out:
-            out.append(r)
+        for x in (r[1] if r[0] == 'alt' else (r,)):
+            if x.uid not in seen:
+                seen.add(x.uid)
+                out.append(x)
     if not out:
         return NONE
-    return out[0] if len(out) == 1 else ('alt', tuple(sorted(out, key=_key)))
+    return out[0] if len(out) == 1 else mk('alt', tuple(sorted(out, key=_key)))
 
 
 def conj(*rs):
     out = []
+    seen = set()
     for r in rs:
-        if r == NONE:
+        if r is NONE:
             return NONE
-        if r == ALLM:
+        if r is ALLM:
             continue
-        if r not in out:
-            out.append(r)
+        for x in (r[1] if r[0] == 'and' else (r,)):
+            if x is NONE:
+                return NONE
+            if x.uid not in seen:
+                seen.add(x.uid)
+                out.append(x)
     if not out:
         return ALLM
-    return out[0] if len(out) == 1 else ('and', tuple(sorted(out, key=_key)))
+    return out[0] if len(out) == 1 else mk('and', tuple(sorted(out, key=_key)))
 
 
 def neg(r):
     if r[0] == 'not':
         return r[1]
-    if r == NONE:
+    if r is NONE:
         return ALLM
-    if r == ALLM:
+    if r is ALLM:
         return NONE
-    return ('not', r)
+    return mk('not', r)
 
 
 def star(r):
-    if r in (EPS, NONE):
+    if r is EPS or r is NONE:
         return EPS
-    return ('star', r)
+    if r[0] == 'star':
+        return r
+    return mk('star', r)
 
 
 def loop(r, lo, hi):
@@ -198,9 +228,9 @@ def loop(r, lo, hi):
         return r
     if lo == 0 and hi is None:
         return star(r)
-    if r == EPS:
+    if r is EPS:
         return EPS
-    return ('loop', r, lo, hi)
+    return mk('loop', r, lo, hi)
 
 
 def opt(r):
@@ -208,7 +238,7 @@ def opt(r):
 
 
 def cs(s):
-    return ('cs', s) if s else NONE
+    return mk('cs', s) if s else NONE
 
 
 # ------------------------------------------------------------------------------------------------
@@ -426,11 +456,23 @@ def trans(tree, states, ctx):
                         for ab, pb in body:
                             out.append((conj(acc, ab), pend_and(pend, pb, ctx)))
                 else:
-                    if any(pb is not None for _, pb in body):
-                        raise Untranslatable("negative look-behind whose body ends in a next-character constraint")
-                    nb = neg(alt(*[ab for ab, _ in body])) if body else ALLM
+                    # not OR_i (A_i and p_i)  =  AND_i (not A_i  or  not p_i): one state per choice
+                    plain = [ab for ab, pb in body if pb is None]
+                    withp = [(ab, pb) for ab, pb in body if pb is not None]
+                    if len(withp) > 6:
+                        raise Untranslatable("negative look-behind with too many pending constraints")
+                    nb = neg(alt(*plain)) if plain else ALLM
                     for acc, pend in states:
-                        out.append((conj(acc, nb), pend))
+                        base = conj(acc, nb)
+                        for choice in itertools.product((0, 1), repeat=len(withp)):
+                            a2, p2 = base, pend
+                            for (ab, pb), ch in zip(withp, choice):
+                                if ch == 0:
+                                    a2 = conj(a2, neg(ab))
+                                else:
+                                    p2 = pend_and(p2, (cs_minus(ctx.U, pb[0]), not pb[1]), ctx)
+                            if p2 is None or p2[0] or p2[1]:
+                                out.append((a2, p2))
                 states = merge(out)
             else:
                 one = lookahead_charset(sp, ctx)
@@ -505,17 +547,22 @@ def plain(tree, universe):
 # ------------------------------------------------------------------------------------------------
 # minterm reduction and SMT-LIB emission
 
-def collect_sets(r, acc):
-    t = r[0]
-    if t == 'cs':
-        acc.add(r[1])
-    elif t in ('cat', 'alt', 'and'):
-        for x in r[1]:
-            collect_sets(x, acc)
-    elif t in ('star', 'not'):
-        collect_sets(r[1], acc)
-    elif t == 'loop':
-        collect_sets(r[1], acc)
+def collect_sets(r, acc, _seen=None):
+    if _seen is None:
+        _seen = set()
+    stack = [r]
+    while stack:
+        r = stack.pop()
+        if r.uid in _seen:
+            continue
+        _seen.add(r.uid)
+        t = r[0]
+        if t == 'cs':
+            acc.add(r[1])
+        elif t in ('cat', 'alt', 'and'):
+            stack.extend(r[1])
+        elif t in ('star', 'not', 'loop'):
+            stack.append(r[1])
 
 
 def minterms(sets, universe):
@@ -570,35 +617,52 @@ def ids_to_re(ids):
     return parts[0] if len(parts) == 1 else "(re.union " + " ".join(parts) + ")"
 
 
-def to_smt(r, index, nblocks, memo=None):
+def to_smt(r, index, nblocks, defs=None):
+    """SMT-LIB term of a node; shared sub-terms become (define-fun ...) entries collected in `defs` (dict uid -> (name, text))"""
+    if defs is None:
+        defs = {}
+    if r.uid in defs:
+        return defs[r.uid][0]
     t = r[0]
     if t == 'cs':
-        return ids_to_re(index[r[1]])
-    if t == 'mark':
-        return f'(str.to_re "{smt_char(nblocks)}")'
-    if t == 'eps':
-        return '(str.to_re "")'
-    if t == 'none':
-        return 're.none'
-    if t == 'allm':
-        return f'(re.* (re.range "{smt_char(0)}" "{smt_char(nblocks)}"))'
-    if t == 'cat':
-        return "(re.++ " + " ".join(to_smt(x, index, nblocks) for x in r[1]) + ")"
-    if t == 'alt':
-        return "(re.union " + " ".join(to_smt(x, index, nblocks) for x in r[1]) + ")"
-    if t == 'and':
-        return "(re.inter " + " ".join(to_smt(x, index, nblocks) for x in r[1]) + ")"
-    if t == 'not':
-        return "(re.comp " + to_smt(r[1], index, nblocks) + ")"
-    if t == 'star':
-        return "(re.* " + to_smt(r[1], index, nblocks) + ")"
-    if t == 'loop':
+        txt = ids_to_re(index[r[1]])
+    elif t == 'mark':
+        txt = f'(str.to_re "{smt_char(nblocks)}")'
+    elif t == 'eps':
+        txt = '(str.to_re "")'
+    elif t == 'none':
+        txt = 're.none'
+    elif t == 'allm':
+        txt = f'(re.* (re.range "{smt_char(0)}" "{smt_char(nblocks)}"))'
+    elif t == 'cat':
+        txt = "(re.++ " + " ".join(to_smt(x, index, nblocks, defs) for x in r[1]) + ")"
+    elif t == 'alt':
+        txt = "(re.union " + " ".join(to_smt(x, index, nblocks, defs) for x in r[1]) + ")"
+    elif t == 'and':
+        txt = "(re.inter " + " ".join(to_smt(x, index, nblocks, defs) for x in r[1]) + ")"
+    elif t == 'not':
+        txt = "(re.comp " + to_smt(r[1], index, nblocks, defs) + ")"
+    elif t == 'star':
+        txt = "(re.* " + to_smt(r[1], index, nblocks, defs) + ")"
+    elif t == 'loop':
         _, x, lo, hi = r
-        xs = to_smt(x, index, nblocks)
+        xs = to_smt(x, index, nblocks, defs)
         if hi is None:
-            return f"(re.++ ((_ re.^ {lo}) {xs}) (re.* {xs}))" if lo > 0 else f"(re.* {xs})"
-        return f"((_ re.loop {lo} {hi}) {xs})"
-    raise CheckerError(f"regex AST node {t}")
+            txt = f"(re.++ ((_ re.^ {lo}) {xs}) (re.* {xs}))" if lo > 0 else f"(re.* {xs})"
+        else:
+            txt = f"((_ re.loop {lo} {hi}) {xs})"
+    else:
+        raise CheckerError(f"regex AST node {t}")
+    if t in ('cs', 'mark', 'eps', 'none') or len(txt) < 40:
+        defs[r.uid] = (txt, None)
+        return txt
+    name = f"r{r.uid}"
+    defs[r.uid] = (name, txt)
+    return name
+
+
+def defs_text(defs):
+    return "".join(f"(define-fun {nm} () RegLan {txt})\n" for nm, txt in defs.values() if txt is not None)
 
 
 def diff_queries(A, B, universe, extra_and=None):
@@ -611,10 +675,12 @@ def diff_queries(A, B, universe, extra_and=None):
         collect_sets(extra_and, sets)
     blocks, index = minterms(sorted(sets), universe)
     n = len(blocks)
-    a, b = to_smt(A, index, n), to_smt(B, index, n)
+    defs = {}
+    a, b = to_smt(A, index, n, defs), to_smt(B, index, n, defs)
     dom = f'(re.* (re.range "{smt_char(0)}" "{smt_char(n)}"))'
-    ex = "" if extra_and is None else f"(assert (str.in_re s {to_smt(extra_and, index, n)}))\n"
-    head = "(set-logic QF_SLIA)\n(set-option :produce-models true)\n(declare-const s String)\n" \
+    exa = None if extra_and is None else to_smt(extra_and, index, n, defs)
+    ex = "" if extra_and is None else f"(assert (str.in_re s {exa}))\n"
+    head = "(set-logic QF_SLIA)\n(set-option :produce-models true)\n(declare-const s String)\n" + defs_text(defs) + \
            f"(assert (str.in_re s {dom}))\n" + ex
     q1 = head + f"(assert (str.in_re s {a}))\n(assert (not (str.in_re s {b})))\n(check-sat)\n(get-value (s))\n"
     q2 = head + f"(assert (str.in_re s {b}))\n(assert (not (str.in_re s {a})))\n(check-sat)\n(get-value (s))\n"
@@ -668,7 +734,17 @@ def representative(block):
 MARKCP = -1
 
 
+_nmemo = {}
+
+
 def nullable(r):
+    v = _nmemo.get(r.uid)
+    if v is None:
+        v = _nmemo[r.uid] = _nullable(r)
+    return v
+
+
+def _nullable(r):
     t = r[0]
     if t in ('eps', 'star', 'allm'):
         return True
@@ -738,7 +814,7 @@ def _deriv(r, c):
 def member(r, cps):
     for c in cps:
         r = deriv(r, c)
-        if r == NONE:
+        if r is NONE:
             return False
     return nullable(r)
 
